@@ -2,9 +2,7 @@
 pub fn to_f64(&self) -> Rounded<f64>
 /*@
     requires
-        // operand in normal form (Repr invariant), resource limits (digit count and exponent below 2^54), and for a finite
-        // operand with B != 2 -- KNOWN FINDING -- the region where the assumed contract of convert_base holds (B a power
-        // of two, or |exponent| <= 38: lib/fp_spec.rs fp_cb_region)
+        // operand in normal form (Repr invariant), resource limits (lib/fp_spec.rs fp_src_ok); any base, finite or infinite
         fp_to_f_pre::<B>((*self)),
     ensures
         // C06 with the documented rounding rule of this function = the default IEEE 754 rounding mode HalfEven:
@@ -27,18 +25,20 @@ pub fn to_f64(&self) -> Rounded<f64>
 
         let context = Context::<HalfEven>::new(53);
         if B != 2 {
-            let rounded = context.convert_to_binary_once(self.clone());
             /*@ proof {
-                // the precondition of into_f64_internal ("already rounded to 53 binary bits") is ESTABLISHED
-                lemma_fp_once_digits(Mode::HalfEven, 53, N, D, mid_of(rounded));
-                assert forall|o: Rounded<f64>| #[trigger] fp_into64_post(rd_val0(rounded), o)
-                    implies fp_two_stage64(Mode::HalfEven, N, D, mid_of(rounded), and_then_spec(rounded, o)) by {
-                    lemma_fp_compose64(Mode::HalfEven, N, D, rounded, o);
+                // (contract of convert_to_binary_once: finite, at most 53 bits) the precondition of into_f64_internal
+                // ("already rounded to 53 binary bits") is ESTABLISHED, and the two contracts compose
+                assert forall|rr: Rounded<Repr<2>>, o: Rounded<f64>| #[trigger] fp_into64_post(rd_val0(rr), o)
+                        && fp_once_post::<B>(Mode::HalfEven, 53usize, (*self), rr)
+                    implies fp_two_stage64(Mode::HalfEven, N, D, mid_of(rr), and_then_spec(rr, o)) by {
+                    lemma_fp_compose64(Mode::HalfEven, N, D, rr, o);
                 }
             } @*/
+            let rounded = context.convert_to_binary_once(self.clone());
             rounded.and_then(|v| /*@ -> (o: Rounded<f64>) requires fp_into_pre(v, 53) ensures fp_into64_post(v, o) @*/ v.into_f64_internal())
         } else {
             /*@ proof {
+                lemma_fp_blen_nd(sig);       // B == 2: the resource bound of fp_src_ok is the digit bound repr_round_ref asks for
                 assert forall|rr: Rounded<Repr<B>>| #[trigger] round_once(Mode::HalfEven, B as int, 53usize, sig, e, rr) && fp_inexact_normal(B as int, rr)
                     implies fp_into_pre(rd_val0(rr), 53) by {
                     lemma_fp_mid_of_round(Mode::HalfEven, 53, sig, e, rr);
